@@ -60,7 +60,7 @@ def check_property(prop, tier="quick", seed=0, jobs=16):
             if kind == "lemma":
                 path = os.path.join(GEN, os.path.basename(u["file"]))
                 src = open(os.path.join(V.VERUS_DIR, u["file"])).read()
-                open(path, "w").write(src)
+                open(path, "w").write(V.expand_includes(src))
                 return job, V.run_verus(path, timeout_s=u.get("timeout", 600)), None, None
             path, report = V.build_unit(u, w)
             return job, V.run_verus(path, timeout_s=u.get("timeout", 600)), report, None
